@@ -392,6 +392,7 @@ func runC09(e *Env) error {
 	})
 	if e.Replay == "" {
 		c09Formats(e)
+		c09ExecuteTo(e)
 	}
 	return nil
 }
